@@ -20,12 +20,294 @@ class AnalysisError(Exception):
     """The checker cannot do its job (anchor vanished, unknown shape, floor)."""
 
 
+def _header_exprs(st):
+    """the expressions of a statement that are evaluated exactly once when control reaches it"""
+    if isinstance(st, (ast.Return, ast.Expr)):
+        return [st.value] if st.value is not None else []
+    if isinstance(st, ast.Assign):
+        return [st.value] + list(st.targets)
+    if isinstance(st, (ast.AugAssign, ast.AnnAssign)):
+        return [x for x in (st.value, st.target) if x is not None]
+    if isinstance(st, ast.If):
+        return [st.test]
+    if isinstance(st, ast.For):
+        return [st.iter]
+    if isinstance(st, ast.With):
+        return [it.context_expr for it in st.items]
+    if isinstance(st, ast.Raise):
+        return [x for x in (st.exc, st.cause) if x is not None]
+    if isinstance(st, ast.Assert):
+        return [x for x in (st.test, st.msg) if x is not None]
+    return []
+
+
+def _once_positions(expr, name):
+    """Load occurrences of `name` in expr that are evaluated exactly once (not under a lambda / comprehension
+    element / conditional arm)"""
+    out = []
+
+    def rec(n, once):
+        if isinstance(n, ast.Name) and n.id == name and isinstance(n.ctx, ast.Load):
+            out.append((n, once))
+            return
+        if isinstance(n, ast.Lambda):
+            rec(n.body, False)
+            return
+        if isinstance(n, (ast.ListComp, ast.SetComp, ast.GeneratorExp, ast.DictComp)):
+            for i, g in enumerate(n.generators):
+                rec(g.iter, once and i == 0)
+                for c in g.ifs:
+                    rec(c, False)
+            for f in ("elt", "key", "value"):
+                if hasattr(n, f):
+                    rec(getattr(n, f), False)
+            return
+        if isinstance(n, ast.IfExp):
+            rec(n.test, once)
+            rec(n.body, False)
+            rec(n.orelse, False)
+            return
+        if isinstance(n, ast.BoolOp):
+            for i, v in enumerate(n.values):
+                rec(v, once and i == 0)
+            return
+        for c in ast.iter_child_nodes(n):
+            rec(c, once)
+
+    rec(expr, True)
+    return out
+
+
+def normalise(tree):
+    """Normal form the analyses run on (layout, comments and quoting are already gone after parsing):
+    a local that is assigned once, by a plain `t = E`, and read once, unconditionally, by the statement that
+    immediately follows, is replaced by E (`t = f(x); return t` == `return f(x)`).  Introducing or removing such a
+    temporary does not change behaviour, so it must not change a verdict.  Returns the number of temporaries removed."""
+    removed = 0
+    # N3: two-armed conditionals are written with a positive test: `if not a: X else: Y` == `if a: Y else: X`
+    _NEG = {ast.NotEq: ast.Eq, ast.IsNot: ast.Is, ast.NotIn: ast.In}
+
+    def positive(t):
+        if isinstance(t, ast.UnaryOp) and isinstance(t.op, ast.Not):
+            return t.operand
+        if isinstance(t, ast.Compare) and len(t.ops) == 1 and type(t.ops[0]) in _NEG:
+            return ast.copy_location(ast.Compare(left=t.left, ops=[_NEG[type(t.ops[0])]()], comparators=t.comparators), t)
+        return None
+
+    for n in ast.walk(tree):
+        if isinstance(n, ast.If) and n.orelse:
+            p = positive(n.test)
+            if p is not None:
+                n.test, n.body, n.orelse = p, n.orelse, n.body
+                removed += 1
+        elif isinstance(n, ast.IfExp):
+            p = positive(n.test)
+            if p is not None:
+                n.test, n.body, n.orelse = p, n.orelse, n.body
+                removed += 1
+    for fn in [n for n in ast.walk(tree) if isinstance(n, (ast.FunctionDef, ast.AsyncFunctionDef))]:
+        a = fn.args
+        params = {x.arg for x in a.posonlyargs + a.args + a.kwonlyargs} | ({a.vararg.arg} if a.vararg else set()) | ({a.kwarg.arg} if a.kwarg else set())
+        for _ in range(6):
+            stores: dict[str, int] = {}
+            loads: dict[str, int] = {}
+            for n in ast.walk(fn):
+                if isinstance(n, ast.Name):
+                    d = stores if isinstance(n.ctx, (ast.Store, ast.Del)) else loads
+                    d[n.id] = d.get(n.id, 0) + 1
+                elif isinstance(n, ast.ExceptHandler) and n.name:
+                    stores[n.name] = stores.get(n.name, 0) + 2
+                elif isinstance(n, (ast.Global, ast.Nonlocal)):
+                    for nm in n.names:
+                        stores[nm] = stores.get(nm, 0) + 2
+            changed = False
+            for blk_owner in ast.walk(fn):
+                for field in ("body", "orelse", "finalbody"):
+                    blk = getattr(blk_owner, field, None)
+                    if not (isinstance(blk, list) and blk and isinstance(blk[0], ast.stmt)):
+                        continue
+                    i = 0
+                    while i + 1 < len(blk):
+                        st, nxt = blk[i], blk[i + 1]
+                        # `t = E; return t`: the value is only ever seen by that return, whatever else `t` is used for
+                        if (
+                            isinstance(st, ast.Assign)
+                            and len(st.targets) == 1
+                            and isinstance(st.targets[0], ast.Name)
+                            and isinstance(nxt, ast.Return)
+                            and isinstance(nxt.value, ast.Name)
+                            and nxt.value.id == st.targets[0].id
+                            and not isinstance(st.value, (ast.Yield, ast.YieldFrom, ast.Await))
+                        ):
+                            nxt.value = st.value
+                            del blk[i]
+                            removed += 1
+                            changed = True
+                            continue
+                        if (
+                            isinstance(st, ast.Assign)
+                            and len(st.targets) == 1
+                            and isinstance(st.targets[0], ast.Name)
+                            and st.targets[0].id not in params
+                            and stores.get(st.targets[0].id) == 1
+                            and loads.get(st.targets[0].id) == 1
+                            and not isinstance(st.value, (ast.Lambda, ast.Yield, ast.YieldFrom, ast.Await, ast.NamedExpr))
+                        ):
+                            nm = st.targets[0].id
+                            pos = [p for h in _header_exprs(nxt) for p in _once_positions(h, nm)]
+                            if len(pos) == 1 and pos[0][1]:
+                                use = pos[0][0]
+                                # replace the Name node by the value expression in its parent
+                                for par in ast.walk(nxt):
+                                    for f, v in ast.iter_fields(par):
+                                        if v is use:
+                                            setattr(par, f, st.value)
+                                        elif isinstance(v, list) and any(x is use for x in v):
+                                            setattr(par, f, [st.value if x is use else x for x in v])
+                                del blk[i]
+                                removed += 1
+                                changed = True
+                                stores[nm] = 0
+                                continue
+                        i += 1
+            if not changed:
+                break
+    return removed
+
+
+def _locals_of(fn) -> set[str]:
+    out = set()
+    for n in ast.walk(fn):
+        if isinstance(n, ast.Name) and isinstance(n.ctx, (ast.Store, ast.Del)):
+            out.add(n.id)
+        elif isinstance(n, ast.ExceptHandler) and n.name:
+            out.add(n.name)
+    a = fn.args
+    out -= {x.arg for x in a.posonlyargs + a.args + a.kwonlyargs} | ({a.vararg.arg} if a.vararg else set()) | ({a.kwarg.arg} if a.kwarg else set())
+    return out
+
+
+def alpha_unify(ref_fn, fn):
+    """mapping {name in fn: name in ref_fn} if fn equals ref_fn up to a consistent (bijective) renaming of local
+    variables, else None"""
+    lr, lf = _locals_of(ref_fn), _locals_of(fn)
+    fwd: dict[str, str] = {}
+    bwd: dict[str, str] = {}
+
+    def name(a, b):
+        if a == b and a not in lr and b not in lf:
+            return True
+        if (a in lr) != (b in lf):
+            return False
+        if a not in lr:
+            return a == b
+        if fwd.get(b, a) != a or bwd.get(a, b) != b:
+            return False
+        fwd[b] = a
+        bwd[a] = b
+        return True
+
+    def rec(x, y):
+        if type(x) is not type(y):
+            return False
+        if isinstance(x, ast.Name):
+            return name(x.id, y.id)
+        if isinstance(x, ast.ExceptHandler):
+            if (x.name is None) != (y.name is None) or (x.name is not None and not name(x.name, y.name)):
+                return False
+        for (f, vx), (_, vy) in zip(ast.iter_fields(x), ast.iter_fields(y)):
+            if isinstance(x, ast.ExceptHandler) and f == "name":
+                continue
+            if f in ("lineno", "col_offset", "end_lineno", "end_col_offset", "ctx", "type_comment"):
+                continue
+            if isinstance(vx, list):
+                if not isinstance(vy, list) or len(vx) != len(vy):
+                    return False
+                for ex, ey in zip(vx, vy):
+                    if isinstance(ex, ast.AST):
+                        if not rec(ex, ey):
+                            return False
+                    elif ex != ey:
+                        return False
+            elif isinstance(vx, ast.AST):
+                if not isinstance(vy, ast.AST) or not rec(vx, vy):
+                    return False
+            elif vx != vy:
+                return False
+        return True
+
+    if not rec(ref_fn, fn):
+        return None
+    return {k: v for k, v in fwd.items() if k != v}
+
+
+def apply_rename(fn, mapping):
+    for n in ast.walk(fn):
+        if isinstance(n, ast.Name) and n.id in mapping:
+            n.id = mapping[n.id]
+        elif isinstance(n, ast.ExceptHandler) and n.name in mapping:
+            n.name = mapping[n.name]
+
+
+REFERENCE_DIR = Path(__file__).resolve().parent.parent / "reference"
+
+
+def _functions_by_qualname(tree):
+    out = {}
+
+    def visit(node, prefix):
+        for child in ast.iter_child_nodes(node):
+            if isinstance(child, (ast.FunctionDef, ast.AsyncFunctionDef, ast.ClassDef)):
+                q = f"{prefix}{child.name}"
+                if not isinstance(child, ast.ClassDef):
+                    out[q] = child
+                visit(child, q + ".")
+            else:
+                visit(child, prefix)
+
+    visit(tree, "")
+    return out
+
+
+def canonical_local_names(tree, rel: str) -> int:
+    """The rules name some anchors by the spelling of local variables (`query`, `res`, `cols` ...).  A function of the
+    analysed tree that equals its counterpart in the reference snapshot (/verif/reference, the tree the rule instances
+    were confirmed on) up to a consistent renaming of locals is renamed back to the reference spelling, so that a pure
+    rename cannot change any verdict.  Functions that differ in any other way are left as they are."""
+    ref = REFERENCE_DIR / rel
+    if not ref.exists():
+        return 0
+    try:
+        rtree = ast.parse(ref.read_text())
+    except SyntaxError:
+        return 0
+    normalise(rtree)
+    rf, ff = _functions_by_qualname(rtree), _functions_by_qualname(tree)
+    n = 0
+    # innermost first, so that an enclosing function is compared after its nested functions were renamed
+    for q in sorted(ff, key=lambda s: -s.count(".")):
+        if q in rf:
+            m = alpha_unify(rf[q], ff[q])
+            if m:
+                apply_rename(ff[q], m)
+                n += 1
+    return n
+
+
 class Module:
     def __init__(self, name: str, path: Path, source: str):
         self.name = name
         self.path = path
         self.source = source
         self.tree = ast.parse(source, filename=str(path))
+        self.n_normalised = normalise(self.tree) if os.environ.get("PDTSA_NORMALISE", "1") != "0" else 0
+        self.n_alpha = 0
+        if os.environ.get("PDTSA_NORMALISE", "1") != "0":
+            try:
+                idx = path.parts.index("src")
+                self.n_alpha = canonical_local_names(self.tree, str(Path(*path.parts[idx:])))
+            except ValueError:
+                pass
         self.rel = None
         for parent in ast.walk(self.tree):
             for child in ast.iter_child_nodes(parent):
